@@ -26,6 +26,8 @@ pub enum LTy {
     Ext(String),
     Opt(Box<LTy>),
     Io(Box<LTy>),
+    /// `Result<T, E>` with an error type of the vocabulary (or `()`): `Except E T`
+    Res(Box<LTy>, Box<LTy>),
     List(Box<LTy>),
     Unknown,
 }
@@ -44,6 +46,7 @@ impl LTy {
             LTy::Ext(n) => n.clone(),
             LTy::Opt(t) => format!("(Option {})", t.lean()),
             LTy::Io(t) => format!("(Rs.IoRes {})", t.lean()),
+            LTy::Res(t, e) => format!("(Except {} {})", e.lean(), t.lean()),
             LTy::List(t) => format!("(List {})", t.lean()),
             LTy::Unknown => "_".into(),
         }
@@ -90,6 +93,14 @@ fn ext_type(name: &str) -> Option<&'static str> {
         "AesCipher" => "Rs.AesDyn.Cipher",
         // `C::Cipher` of `C: AesKind` (aes::Aes128 / Aes192 / Aes256): the keyed block cipher
         "Cipher" => "Rs.AesBlock",
+        // the `time` crate (feature `time`; Basic/RsTime.lean)
+        "ComponentRange" => "Rs.ComponentRange",
+        "DateTimeRangeError" => "Rs.DateTimeRangeError",
+        "Month" => "Rs.Month",
+        "Date" => "Rs.TimeOps.Date",
+        "Time" => "Rs.TimeOps.Time",
+        "PrimitiveDateTime" => "Rs.TimeOps.PrimitiveDateTime",
+        "OffsetDateTime" => "Rs.TimeOps.OffsetDateTime",
         _ => return None,
     })
 }
@@ -135,6 +146,13 @@ fn ext_method(ty: &str, m: &str) -> Option<(&'static str, ExtKind, LTy)> {
         ("Rs.AesDyn.Cipher", "crypt_in_place") => ("Rs.AesDyn.crypt_in_place", ExtKind::MutBuf, LTy::Unit),
         ("Rs.AesBlock", "encrypt_block") => ("Rs.AesBlock.encrypt_block", ExtKind::RefBuf, LTy::Unit),
         ("Rs.Component", "as_os_str") => ("Rs.Component.as_os_str", ExtKind::Pure, LTy::Path),
+        ("Rs.TimeOps.PrimitiveDateTime", "assume_utc") => ("Rs.TimeOps.assume_utc", ExtKind::Pure, LTy::Ext("Rs.TimeOps.OffsetDateTime".into())),
+        ("Rs.TimeOps.OffsetDateTime", "year") => ("Rs.TimeOps.year", ExtKind::Pure, LTy::Int("Int32".into())),
+        ("Rs.TimeOps.OffsetDateTime", "month") => ("Rs.TimeOps.month", ExtKind::Pure, LTy::Ext("Rs.Month".into())),
+        ("Rs.TimeOps.OffsetDateTime", "day") => ("Rs.TimeOps.day", ExtKind::Pure, LTy::Int("UInt8".into())),
+        ("Rs.TimeOps.OffsetDateTime", "hour") => ("Rs.TimeOps.hour", ExtKind::Pure, LTy::Int("UInt8".into())),
+        ("Rs.TimeOps.OffsetDateTime", "minute") => ("Rs.TimeOps.minute", ExtKind::Pure, LTy::Int("UInt8".into())),
+        ("Rs.TimeOps.OffsetDateTime", "second") => ("Rs.TimeOps.second", ExtKind::Pure, LTy::Int("UInt8".into())),
         _ => return None,
     })
 }
@@ -164,6 +182,10 @@ fn ext_static(ty: &str, f: &str) -> Option<(&'static str, LTy)> {
         ("Hasher", "new") => ("Rs.Crc32Hasher.new", LTy::Ext("Rs.Crc32Hasher".into())),
         // `Hmac::<Sha1>::new_from_slice(key)`: `Result<Self, InvalidLength>` as an `Option`
         ("Hmac", "new_from_slice") => ("Rs.Hmac.new_from_slice", LTy::Opt(Box::new(LTy::Ext("Rs.Hmac".into())))),
+        ("Month", "try_from") => ("Rs.Month.try_from", LTy::Res(Box::new(LTy::Ext("Rs.Month".into())), Box::new(LTy::Ext("Rs.ComponentRange".into())))),
+        ("Date", "from_calendar_date") => ("Rs.TimeOps.from_calendar_date", LTy::Res(Box::new(LTy::Ext("Rs.TimeOps.Date".into())), Box::new(LTy::Ext("Rs.ComponentRange".into())))),
+        ("Time", "from_hms") => ("Rs.TimeOps.from_hms", LTy::Res(Box::new(LTy::Ext("Rs.TimeOps.Time".into())), Box::new(LTy::Ext("Rs.ComponentRange".into())))),
+        ("PrimitiveDateTime", "new") => ("Rs.TimeOps.pdt_new", LTy::Ext("Rs.TimeOps.PrimitiveDateTime".into())),
         _ => return None,
     })
 }
@@ -234,8 +256,16 @@ pub fn lty(t: &Type, tparams: &[String], self_ty: Option<&LTy>, reg: &Registry, 
                     _ => LTy::Unknown,
                 },
                 "Option" if args.len() == 1 => LTy::Opt(Box::new(lty(args[0], tparams, self_ty, reg, lreg))),
-                "Result" if args.len() == 1 || (args.len() == 2 && matches!(args[1], Type::Path(e) if path_last(&e.path) == "Error")) => {
+                "Result" if args.len() == 1 || (args.len() == 2 && matches!(args[1], Type::Path(e) if path_last(&e.path) == "Error" && e.path.segments[0].ident != "Self")) => {
                     LTy::Io(Box::new(lty(args[0], tparams, self_ty, reg, lreg)))
+                }
+                "Result" if args.len() == 2 => {
+                    // an error type of the vocabulary, or `()`
+                    let (t, e) = (lty(args[0], tparams, self_ty, reg, lreg), lty(args[1], tparams, self_ty, reg, lreg));
+                    if t == LTy::Unknown || !matches!(e, LTy::Ext(_) | LTy::Unit) {
+                        return LTy::Unknown;
+                    }
+                    LTy::Res(Box::new(t), Box::new(e))
                 }
                 _ => {
                     if let Some(e) = ext_type(&n) {
@@ -334,6 +364,31 @@ fn self_lty(im: &ItemImpl, tps: &[String]) -> LTy {
     }
 }
 
+/// `Result<_, Self::Error>` in the signature of a trait method: `Self::Error` is the `type Error = …;` of the impl
+pub fn resolve_self_error(im: &ItemImpl, sig: &Signature) -> Signature {
+    let mut sig = sig.clone();
+    let assoc = im.items.iter().find_map(|ii| match ii {
+        ImplItem::Type(t) if t.ident == "Error" => Some(t.ty.clone()),
+        _ => None,
+    });
+    if let (Some(assoc), ReturnType::Type(_, rt)) = (assoc, &mut sig.output) {
+        if let Type::Path(p) = &mut **rt {
+            if let Some(seg) = p.path.segments.last_mut() {
+                if let PathArguments::AngleBracketed(a) = &mut seg.arguments {
+                    for g in a.args.iter_mut() {
+                        if let GenericArgument::Type(Type::Path(q)) = g {
+                            if q.qself.is_none() && q.path.segments.len() == 2 && q.path.segments[0].ident == "Self" && q.path.segments[1].ident == "Error" {
+                                *g = GenericArgument::Type(assoc.clone());
+                            }
+                        }
+                    }
+                }
+            }
+        }
+    }
+    sig
+}
+
 /// Find the free function `fn name`.
 pub fn find_free<'a>(all: &[&'a Item], name: &str) -> Option<&'a ItemFn> {
     for it in all {
@@ -350,7 +405,7 @@ pub fn fn_sig(im: &ItemImpl, f: &ImplItemFn, reg: &Registry, lreg: &LReg) -> R<L
     let tparams = impl_tparams(&im.generics)?;
     let tps: Vec<String> = tparams.iter().map(|x| x.0.clone()).collect();
     let st = self_lty(im, &tps);
-    sig_of(tparams, st, &f.sig, reg, lreg)
+    sig_of(tparams, st, &resolve_self_error(im, &f.sig), reg, lreg)
 }
 
 pub fn free_sig(f: &ItemFn, reg: &Registry, lreg: &LReg) -> R<LFnSig> {
